@@ -2,7 +2,7 @@
 ''' Store the seeded changes produced by the mutation sub-agents under /verif/seeded/<prop>-<n>/ and
 record what the registered check of that property reports on each (re-run now, quick tier).
 
-  harness/seedstore.py Cxx /tmp/seed_Cxx [--notes notes.json]
+  harness/seedstore.py Cxx /tmp/seed_Cxx [--notes notes.json] [--tag r2]   (tag: a second round is stored as Cxx-r2m1 …)
 
 For each mN.diff (or mN_ported.diff when the original no longer applies) it writes
   seeded/Cxx-mN/patch.diff, demo.py, meta.json  (+ stubs/ shared per property under seeded/Cxx-stubs/)
@@ -20,13 +20,14 @@ VERIF = os.path.dirname(os.path.dirname(os.path.abspath(__file__)))
 def main():
     prop, src = sys.argv[1], sys.argv[2]
     notes = {}
+    tag = sys.argv[sys.argv.index('--tag') + 1] if '--tag' in sys.argv else ''
     if '--notes' in sys.argv:
         notes = json.load(open(sys.argv[sys.argv.index('--notes') + 1]))
     names = sorted(set(f.split('.')[0].split('_')[0] if not f.startswith('bonus') else 'bonus_m4'
                        for f in os.listdir(src) if f.endswith('.diff')))
     stubs = os.path.join(src, 'stubs')
     if os.path.isdir(stubs):
-        dst = os.path.join(VERIF, 'seeded', '%s-stubs' % prop)
+        dst = os.path.join(VERIF, 'seeded', '%s-%sstubs' % (prop, tag + '-' if tag else ''))
         shutil.rmtree(dst, ignore_errors=True)
         shutil.copytree(stubs, dst, ignore=shutil.ignore_patterns('__pycache__'))
     for n in names:
@@ -34,7 +35,7 @@ def main():
         ported = os.path.exists(patch)
         if not ported:
             patch = os.path.join(src, n + '.diff')
-        out = os.path.join(VERIF, 'seeded', '%s-%s' % (prop, n.replace('bonus_', '')))
+        out = os.path.join(VERIF, 'seeded', '%s-%s%s' % (prop, tag, n.replace('bonus_', '')))
         os.makedirs(out, exist_ok=True)
         shutil.copy(patch, os.path.join(out, 'patch.diff'))
         demo = os.path.join(src, n + '_demo.py')
@@ -65,7 +66,7 @@ def main():
             meta['check'] = './check %s --tier quick (VERIF_SEED=0)' % prop
             meta['exit'] = r['exit']
             meta['signatures'] = r['signatures'][:8]
-        key = '%s-%s' % (prop, n.replace('bonus_', ''))
+        key = '%s-%s%s' % (prop, tag, n.replace('bonus_', ''))
         if key in notes:
             meta['history'] = notes[key]
         with open(os.path.join(out, 'meta.json'), 'w') as f:
